@@ -184,6 +184,40 @@ func e8Case(mask int, variant string, triples bool, perturbSeed uint64) Case {
 						return
 					}
 				}
+				if (i1+i2)%4 == 1 || triples {
+					// back to back, without settling in between: Refilter(f1); Refilter(f2)
+					// must end in f2's view, and the delivered events must replay the
+					// view before into the view after
+					g.barrier()
+					drainNow(events)
+					before, _ := cacheSnap(nd.cc.Cache())
+					e1, e2 := nd.refilt(f1), nd.refilt(f2)
+					g.barrier()
+					evts := drainNow(events)
+					after, _ := cacheSnap(nd.cc.Cache())
+					r.Add("back-to-back-refilters", 1)
+					if e1 != nil || e2 != nil {
+						r.V("C07", "refilter-error", "%s: back-to-back Refilter: %v %v", label, e1, e2)
+						return
+					}
+					if exp := f2.Accepted(content); !after.Equal(exp) {
+						r.V("C07", "refilter-cache-wrong", "%s: Refilter(%s) immediately followed by Refilter(%s): the cache ends as %v, expected %v (the second call was lost or misapplied)", label, f1, f2, after, exp)
+						return
+					}
+					replay := before.Clone()
+					for _, e := range evts {
+						k := kit.Key(e.Resource())
+						if e.Type() == kcache.EventTypeDelete {
+							delete(replay, k)
+						} else {
+							replay[k] = e.Resource().GetResourceVersion()
+						}
+					}
+					if !replay.Equal(after) {
+						r.V("C07", "refilter-delta-wrong", "%s: back-to-back Refilter(%s), Refilter(%s): replaying the %d delivered events over %v gives %v, the cache is %v", label, f1, f2, len(evts), before, replay, after)
+						return
+					}
+				}
 				nd.closer()
 			}
 		}
